@@ -2,10 +2,11 @@
 import os, re, shutil
 from gen import Gen, NAMES, KEYS
 from seqdiff import run_seq
-from seqprop import coverage, replay_file, corpus
+from seqprop import coverage, replay_file, corpus, audit
 
 LEVEL = "translation_validation"
-COQ_TARGETS = ()
+COQ_TARGETS = ("props/C12.vo",)
+THEOREMS = ["C12_frame_partial", "C12_deleted_refused_partial"]
 RULE = ("histories over three keyspace names with create / write / delete / re-create, old handles kept and used after "
         "deletion, handles dropped, reopen at random positions, journal records of deleted keyspaces still in the active "
         "journal; after each step name listing, keyspace_exists and full dumps of every keyspace; compared between "
@@ -75,6 +76,7 @@ def programs(seed, n, nops):
 
 def run(rep, tier, seed, build):
     n, nops = (300, 45) if tier == "quick" else (8000, 80)
+    audit(rep, "props/C12.v", THEOREMS, build)
     progs = corpus("C12") + programs(seed, n, nops)
     res = run_seq(rep, progs)
     coverage(rep, res, progs, RULE)
